@@ -39,10 +39,17 @@ def rule_queues(ctx):
     for lz in prog.lazy:
         if lz.kind == "coroutine" and lz.path.endswith(" as %s>::process::{closure#0}" % PROC):
             b = lz.get()
-            push = calls_to(b, "alloc::collections::vec_deque::VecDeque::push_back")
-            if not push:
+            push_any = calls_to(b, "alloc::collections::vec_deque::VecDeque::push_back", "alloc::collections::vec_deque::VecDeque::push_front",
+                                "alloc::collections::vec_deque::VecDeque::insert")
+            if not push_any:
                 continue
             n += 1
+            wrong = [c for c in push_any if not c.name.endswith("push_back")]
+            ctx.ob("C13.2", "outputs are queued at the back (FIFO):%s" % b.root, not wrong,
+                   "`%s` queues an output with %s while `next` pops from the front: outputs leave in a different order than "
+                   "they were produced (LIFO for a burst of inputs)" % (b.root, sorted({c.name.rsplit("::", 1)[-1] for c in wrong})),
+                   site=(wrong[0].loc() if wrong else b.loc()), key="C13.2:fifo-push:%s" % b.root)
+            push = push_any
             notif = calls_to(b, "tokio::sync::notify::Notify::notify_one", "tokio::sync::notify::Notify::notify_waiters")
             for p in push:
                 ok = any(b.dominates(p.done_bb, x.bb) and b.must_pass({x.bb}, frm=p.done_bb) for x in notif)
